@@ -282,7 +282,8 @@ def shrink_steps(ctx, steps: List[Any], mode: str, mutation: Optional[str], stil
 def report_violations(ctx, case: Case, viol: List[Dict[str, Any]], mutation: Optional[str]) -> None:
     if not viol:
         return
-    v = min(viol, key=lambda x: (x["prefix"] is None, x["prefix"] or 0))
+    pick = lambda x: (x["prefix"] is None, x["outcome"] != "drop_all", x["prefix"] or 0)   # noqa: E731
+    v = min(viol, key=pick)
 
     def still_fails(steps: List[Any]) -> bool:
         c2 = make_case(ctx, steps, case.mode, mutation)
@@ -294,7 +295,7 @@ def report_violations(ctx, case: Case, viol: List[Dict[str, Any]], mutation: Opt
             c2 = make_case(ctx, steps, case.mode, mutation)
             v2, _ = powerloss.sweep(c2.raw, c2.root, c2.reader)
             if v2:
-                case, v = c2, min(v2, key=lambda x: (x["prefix"] is None, x["prefix"] or 0))
+                case, v = c2, min(v2, key=pick)
     prob = v["problems"][0]
     key = f"pointer-outruns-data:{prob.get('problem', '?').split(' ')[0]}:{powerloss.kind_of(prob.get('file', '')) if prob.get('file') else 'pointer'}"
     trace_txt = powerloss.describe_trace(case.raw, case.root)
@@ -426,6 +427,65 @@ def corr_evaluator(ctx, cases: List[Case]) -> None:
     ctx.count(n)
 
 
+def corr_schedules(ctx, cases: List[Case], per_case: int) -> None:
+    """Model `run` (calls interleaved with background events) vs the Python evaluator on the same random
+    schedules: durable tree of the final names at random cut points."""
+    exprs, expected, info = [], [], []
+    rng = ctx.rng
+    for c in cases:
+        if c.can["unknown"]:
+            continue
+        paths = c.final_paths()
+        rel_of = {("P",) + v: k for k, v in c.namer.names.items()}
+        if any(p not in rel_of for p in paths):
+            continue
+        ps = "[" + "; ".join(ostrace.path_coq(p) for p in paths) + "]"
+        for _ in range(per_case):
+            fs = powerloss.PLFS(c.root)
+            pos = 0
+            events: List[str] = []
+            model_inode_of_py: Dict[int, int] = {}
+            ncreate = 0
+            live_final: List[Any] = []
+            cuts = sorted(rng.sample(range(1, len(c.calls) + 1), min(4, len(c.calls))))
+            for k, call in enumerate(c.calls):
+                while pos <= c.can["raw_index"][k]:
+                    before = fs.nxt
+                    fs.apply(c.raw[pos])
+                    if pos == c.can["raw_index"][k] and call[0] == "Create" and fs.nxt == before + 1:
+                        model_inode_of_py[before] = ncreate
+                    pos += 1
+                events.append("Call (" + ostrace.call_coq(call) + ")")
+                if call[0] == "Create":
+                    ncreate += 1
+                if call[0] == "Rename" and call[2] not in live_final:
+                    live_final.append(call[2])
+                # background events right after this call
+                if rng.random() < 0.35:
+                    for _b in range(rng.choice([1, 2, 3])):
+                        if rng.random() < 0.6 and live_final:
+                            cp = rng.choice(live_final)
+                            fs.bg_entry(rel_of[cp])
+                            events.append(f"Bg (PEntry {ostrace.path_coq(cp)})")
+                        elif model_inode_of_py:
+                            pi = rng.choice(list(model_inode_of_py))
+                            fs.bg_data(pi, None)
+                            events.append(f"Bg (PData {model_inode_of_py[pi]} 200%nat)")
+                if (k + 1) in cuts:
+                    expected.append(tree_tokens(c, fs, paths, rel_of))
+                    exprs.append("match run fs0 [" + "; ".join(events) + f"] with Some s => map (content_at (power_loss s)) {ps} | None => [] end")
+                    info.append({"steps": c.steps, "tracer": c.mode, "cut": k + 1, "bg_events": sum(1 for e in events if e.startswith("Bg"))})
+    got = coqbuild.coq_eval(REQ, exprs, preamble=PRE)
+    bad = []
+    for inf, exp, g in zip(info, expected, got):
+        g2 = [None if x is None else ostrace.tokens_from_coq(x.x) for x in g]
+        if g2 != exp:
+            bad.append(dict(inf, python=repr(exp)[:300], model=repr(g2)[:300]))
+    ctx.correspondence("schedules", len(exprs), bad)
+    ctx.count(len(exprs))
+    ctx.stats["schedule_bg_events"] = sum(i["bg_events"] for i in info)
+
+
 # ------------------------------------------------------------------------------------------ driver
 def run(ctx) -> None:
     ctx.rule = ("scenarios = fixed list covering create / append / multi-append / delete_files / expire / delete_snapshot + seeded "
@@ -504,6 +564,7 @@ def run(ctx) -> None:
     try:
         corr_model(ctx, allc)
         corr_evaluator(ctx, (cases[:3] + scases[:1]) if quick else allc)
+        corr_schedules(ctx, (cases[:6] + scases[:1]) if quick else allc, 2 if quick else 4)
         # tracers agree
         bad = []
         for sc in scases:
